@@ -1,7 +1,7 @@
 //! C15, TrueType side: post, name (owned and borrowed), loca, glyphs, glyf+loca, cmap, the
 //! deterministic field-width edge cases, and the fixture tables.
 
-use super::{bi16, bi32, bu16, bu32, diff, fail, hexs, is_b16, wb, wbd, write_head};
+use super::{bi16, bi32, bu16, bu32, diff, fail, hexs, is_b16, wb, wbd, with_tail, write_head};
 use crate::engine::{fixtures, CaseResult, Ctx, Rec};
 use crate::fontgen::buf::Buf;
 use crate::fontgen::sfnt::find_table;
@@ -67,6 +67,9 @@ pub struct PostM {
     mem: [u32; 5],
     /// (glyph name indices, custom names) for version 2.0
     v2: Option<(Vec<u16>, Vec<StrM>)>,
+    /// byte encoder only: further Pascal strings after the names the indices need (the reader
+    /// derives the number of names from the largest index and ignores the rest)
+    unused_names: Vec<StrM>,
 }
 
 fn post_strategy() -> impl Strategy<Value = PostM> {
@@ -89,8 +92,9 @@ fn post_strategy() -> impl Strategy<Value = PostM> {
         bi16(),
         [bu32(), bu32(), bu32(), bu32(), bu32()],
         v2,
+        prop_oneof![3 => Just(Vec::new()).boxed(), 1 => proptest::collection::vec((0u32..9, 0x21u8..0x60).prop_map(|(len, seed)| StrM { len, seed }), 1..3).boxed()],
     )
-        .prop_map(|(version, italic, upos, uthick, mem, v2)| PostM { version, italic, upos, uthick, mem, v2: if version == 0x0002_0000 { Some(v2) } else { None } })
+        .prop_map(|(version, italic, upos, uthick, mem, v2, unused_names)| PostM { version, italic, upos, uthick, mem, v2: if version == 0x0002_0000 { Some(v2) } else { None }, unused_names })
 }
 
 fn enc_post(m: &PostM) -> Vec<u8> {
@@ -185,7 +189,18 @@ fn check_post(m: &PostM, rec: &mut Rec) -> CaseResult {
     if got != expect {
         return Err(fail("post:written-bytes", diff(&got, &expect)));
     }
-    let g2 = stable!("post", &expect, |d| ReadScope::new(d).read::<PostTable<'_>>(), |t| wb::<PostTable<'_>, _>(t), |a, b| post_matches(a, m).and_then(|_| post_matches(b, m)));
+    // the byte string may carry names nobody refers to (version 2) or trailing bytes (other versions)
+    let mut raw = expect.clone();
+    if m.v2.is_some() {
+        for n in &m.unused_names {
+            raw.push(n.len as u8);
+            raw.extend(n.bytes());
+        }
+        rec.class_if(!m.unused_names.is_empty(), "post:unused-trailing-names");
+    } else {
+        raw = with_tail(&raw, 8);
+    }
+    let g2 = stable!("post", &raw, |d| ReadScope::new(d).read::<PostTable<'_>>(), |t| wb::<PostTable<'_>, _>(t), |a, b| post_matches(a, m).and_then(|_| post_matches(b, m)));
     if g2 != expect {
         return Err(fail("post:gen2-bytes", diff(&g2, &expect)));
     }
@@ -215,6 +230,9 @@ pub struct NameM {
     langs: Vec<StrM>,
     /// borrowed form only: bytes between the records and the string storage
     gap: u16,
+    /// borrowed form only: 0 strings in record order, 1 identical strings stored once and shared,
+    /// 2 strings stored in reverse order
+    layout: u8,
 }
 
 type DecName = (u16, Vec<([u16; 4], Vec<u8>)>, Vec<Vec<u8>>);
@@ -329,31 +347,39 @@ fn check_name_owned(m: &NameM, rec: &mut Rec) -> CaseResult {
     Ok(())
 }
 
-/// my encoder of a (borrowed-form) name table: strings stored in record order, optional gap
+/// my encoder of a (borrowed-form) name table: the string storage can be laid out in several ways
+/// that all mean the same (see `NameM::layout`), with an optional gap before it
 fn enc_name(m: &NameM) -> Vec<u8> {
+    let all: Vec<Vec<u8>> = m.recs.iter().map(|r| r.s.bytes()).chain(m.langs.iter().map(|l| l.bytes())).collect();
+    // storage and the offset of every string
+    let mut storage: Vec<u8> = Vec::new();
+    let mut offs = vec![0usize; all.len()];
+    let order: Vec<usize> = if m.layout == 2 { (0..all.len()).rev().collect() } else { (0..all.len()).collect() };
+    for &i in &order {
+        if m.layout == 1 && !all[i].is_empty() {
+            if let Some(j) = order.iter().take_while(|j| **j != i).find(|j| all[**j] == all[i]) {
+                offs[i] = offs[*j];
+                continue;
+            }
+        }
+        offs[i] = storage.len();
+        storage.extend(&all[i]);
+    }
     let mut b = Buf::new();
     let format = if m.langs.is_empty() { 0 } else { 1 };
     let header = 6 + 12 * m.recs.len() + if format == 1 { 2 + 4 * m.langs.len() } else { 0 };
     b.u16(format).u16(m.recs.len() as u16).u16(header as u16 + m.gap);
-    let mut off = 0u32;
-    for r in &m.recs {
-        b.u16(r.ids[0]).u16(r.ids[1]).u16(r.ids[2]).u16(r.ids[3]).u16(r.s.len as u16).u16(off as u16);
-        off += r.s.len;
+    for (i, r) in m.recs.iter().enumerate() {
+        b.u16(r.ids[0]).u16(r.ids[1]).u16(r.ids[2]).u16(r.ids[3]).u16(r.s.len as u16).u16(offs[i] as u16);
     }
     if format == 1 {
         b.u16(m.langs.len() as u16);
-        for l in &m.langs {
-            b.u16(l.len as u16).u16(off as u16);
-            off += l.len;
+        for (k, l) in m.langs.iter().enumerate() {
+            b.u16(l.len as u16).u16(offs[m.recs.len() + k] as u16);
         }
     }
     b.zeros(m.gap as usize);
-    for r in &m.recs {
-        b.bytes(&r.s.bytes());
-    }
-    for l in &m.langs {
-        b.bytes(&l.bytes());
-    }
+    b.bytes(&storage);
     b.into_vec()
 }
 
@@ -394,6 +420,8 @@ fn check_name_borrowed(m: &NameM, rec: &mut Rec) -> CaseResult {
     rec.set_nontrivial(m.recs.len() + m.langs.len() >= 2);
     rec.class(if m.langs.is_empty() { "name:format0" } else { "name:format1" });
     rec.class_if(m.gap > 0, "name:gap-before-strings");
+    rec.class_if(m.layout == 1, "name:shared-strings");
+    rec.class_if(m.layout == 2, "name:strings-in-reverse-order");
     rec.hash_bytes(&raw);
     Ok(())
 }
@@ -406,8 +434,17 @@ fn name_strategy(big: bool) -> impl Strategy<Value = NameM> {
     };
     let s = (len, any::<u8>()).prop_map(|(len, seed)| StrM { len, seed });
     let rec = ([bu16(), bu16(), bu16(), bu16()], s.clone()).prop_map(|(ids, s)| NameRecM { ids, s });
-    (proptest::collection::vec(rec, 0..7), prop_oneof![2 => Just(Vec::new()).boxed(), 1 => proptest::collection::vec(s, 1..4).boxed()], prop_oneof![3 => Just(0u16), 1 => 1u16..9])
-        .prop_map(|(recs, langs, gap)| NameM { recs, langs, gap })
+    (proptest::collection::vec(rec, 0..7), prop_oneof![2 => Just(Vec::new()).boxed(), 1 => proptest::collection::vec(s, 1..4).boxed()], 0u16..12)
+        .prop_map(|(mut recs, langs, gap): (Vec<NameRecM>, Vec<StrM>, u16)| {
+            // layouts derived from the gap draw keep the strategy shape; duplicates make sharing bite
+            let layout = (gap as usize + recs.len()) as u8 % 3;
+            if layout == 1 && recs.len() >= 2 {
+                let s0 = recs[0].s.clone();
+                let last = recs.len() - 1;
+                recs[last].s = s0;
+            }
+            NameM { recs, langs, gap: if gap > 4 { 0 } else { gap }, layout }
+        })
 }
 
 // ================================================================== loca
